@@ -410,6 +410,7 @@ fn check_presets(rep: &mut Report) {
 
 fn run_product(rep: &mut Report, mode: Mode, tier: Tier) {
     check_presets(rep);
+    print_history(rep, mode);
     let budget = Budget::for_tier(tier, 45, 840);
     let families: Vec<(&str, Vec<RV>, usize)> = vec![
         ("F-shape", f_shape(tier.pick(4, 5)), 2),
@@ -736,13 +737,16 @@ fn run_product(rep: &mut Report, mode: Mode, tier: Tier) {
         use refmodel::print::Indent;
         let mut depths: Vec<usize> = (1..=40).collect();
         depths.extend([47, 48, 49, 63, 64, 65, 85, 86, 127, 128, 129]);
+        // (257, 258, 259 with the unit 255: the longest indentation run crosses 65 535 characters,
+        // the limit of a run-time width in a format string; 128, 129 with 254 / 255: 32 767)
+        depths.extend([257, 258, 259]);
         if tier == Tier::Thorough {
-            depths.extend([255, 256, 257, 511, 512, 513]);
+            depths.extend([255, 256, 511, 512, 513, 1023, 1024, 1025]);
         }
         let mut units: Vec<Indent> = (0..=9).map(Indent::Spaces).collect();
-        units.extend([Indent::Spaces(15), Indent::Spaces(16), Indent::Spaces(17), Indent::Spaces(63), Indent::Spaces(64), Indent::Spaces(65), Indent::Spaces(255)]);
+        units.extend([Indent::Spaces(15), Indent::Spaces(16), Indent::Spaces(17), Indent::Spaces(63), Indent::Spaces(64), Indent::Spaces(65), Indent::Spaces(254), Indent::Spaces(255)]);
         units.extend((0..=5).map(Indent::Tabs));
-        units.extend([Indent::Tabs(8), Indent::Tabs(255)]);
+        units.extend([Indent::Tabs(8), Indent::Tabs(254), Indent::Tabs(255)]);
         let nd = depths.len();
         let nu = units.len();
         let t = explore::par_tally(depths, |d, t| {
@@ -756,7 +760,9 @@ fn run_product(rep: &mut Report, mode: Mode, tier: Tier) {
                 let n = match u {
                     Indent::Spaces(n) | Indent::Tabs(n) => n as usize,
                 };
-                if n * d > 40_000 {
+                // (... except where the product straddles 2^15 or 2^16)
+                let straddles = (n >= 254 && (128..=129).contains(&d)) || (n == 255 && (257..=259).contains(&d)) || (n == 64 && (1023..=1025).contains(&d));
+                if n * d > 40_000 && !straddles {
                     continue;
                 }
                 let mut o = Opts::pretty();
@@ -840,6 +846,112 @@ fn run_product(rep: &mut Report, mode: Mode, tier: Tier) {
 }
 
 /// No byte outside string literals is whitespace; separators are only `,` and `:`.
+/// Print history on one thread (C04, C08, C13): a first print - of any of four values under any
+/// of four records - into a destination that works, that answers an error after k bytes, or that
+/// *panics* after k bytes (caught), followed on the same, otherwise fresh thread by prints of two
+/// probe values through every compact route and under every record. What the probes print must
+/// not depend on what happened before: compact routes give the reference compact text (C08),
+/// every record gives the reference layout (C13), and everything parses back to the probe (C04).
+fn print_history(rep: &mut Report, mode: Mode) {
+    struct Dest {
+        limit: usize,
+        panics: bool,
+        out: String,
+    }
+    impl std::fmt::Write for Dest {
+        fn write_str(&mut self, s: &str) -> std::fmt::Result {
+            if self.out.len() + s.len() > self.limit {
+                if self.panics {
+                    panic!("the destination panics");
+                }
+                return Err(std::fmt::Error);
+            }
+            self.out.push_str(s);
+            Ok(())
+        }
+    }
+    let n = |s: &str| RV::num(s);
+    let firsts: Vec<RV> = vec![
+        RV::Arr(vec![RV::Arr(vec![n("1"), n("2")]), RV::Arr(vec![n("3"), n("4")])]),
+        RV::Obj(vec![("key \"k\"".into(), RV::Arr(vec![RV::Str("v\n".into()), n("12.5e3"), RV::Null])), ("o".into(), RV::Obj(vec![("p".into(), RV::Arr(vec![]))]))]),
+        RV::Arr(vec![RV::Str("\u{1}\u{e9}".repeat(30)), RV::Obj(vec![]), RV::Arr(vec![RV::Arr(vec![RV::Arr(vec![n("0")])])])]),
+        RV::Str("a string".into()),
+    ];
+    let probes: Vec<RV> = vec![RV::Arr(vec![RV::Str("x".into()), RV::Obj(vec![("y".into(), n("1"))])]), RV::Obj(vec![("a".into(), RV::Arr(vec![n("1"), n("2")])), ("b".into(), RV::Arr(vec![RV::Arr(vec![])]))])];
+    let mut always = Opts::pretty();
+    always.array_limit = Some(Limit::Always);
+    always.object_limit = Some(Limit::Always);
+    let records: Vec<(&str, Opts)> = vec![("pretty", Opts::pretty()), ("compact", Opts::compact()), ("inline", Opts::inline()), ("pretty, always expanded", always)];
+    // (first value, record of the first print): one work item each
+    let items: Vec<(usize, usize)> = (0..firsts.len()).flat_map(|i| (0..records.len()).map(move |j| (i, j))).collect();
+    let t = explore::par_tally(items, |(i, j), t| {
+        let first_real = bridge::to_value(&firsts[i]);
+        let ro = bridge::to_options(&records[j].1);
+        let full = first_real.print_with(ro.clone()).to_string();
+        let mut ks: Vec<usize> = (0..full.len().min(96)).collect();
+        ks.extend((96..full.len()).step_by(7));
+        ks.push(usize::MAX);
+        for k in ks {
+            for panics in [false, true] {
+                t.evals += 1;
+                let (first_real, ro, probes2, records2) = (first_real.clone(), ro.clone(), probes.clone(), records.clone());
+                let h = std::thread::spawn(move || {
+                    let first = std::panic::catch_unwind(std::panic::AssertUnwindSafe(|| {
+                        use std::fmt::Write;
+                        let mut d = Dest { limit: k, panics, out: String::new() };
+                        let _ = write!(d, "{}", first_real.print_with(ro.clone()));
+                    }));
+                    let _ = first;
+                    let mut seen: Vec<(usize, String, Result<String, String>)> = Vec::new();
+                    for (pi, p) in probes2.iter().enumerate() {
+                        let real = bridge::to_value(p);
+                        seen.push((pi, "to_string()".into(), explore::guard(|| real.to_string())));
+                        seen.push((pi, "compact_print()".into(), explore::guard(|| real.compact_print().to_string())));
+                        seen.push((pi, "String::from(value)".into(), explore::guard(|| String::from(real.clone()))));
+                        for (name, o) in &records2 {
+                            let ro = bridge::to_options(o);
+                            seen.push((pi, format!("print_with({name})"), explore::guard(|| real.print_with(ro.clone()).to_string())));
+                        }
+                    }
+                    seen
+                });
+                let what = format!("after printing {} under the record [{}] into a destination that {} after {} bytes", firsts[i].show(), records[j].0, if panics { "panics" } else { "fails" }, if k == usize::MAX { "no number of".to_string() } else { k.to_string() });
+                let case = json!({"kind": "print-history", "first": firsts[i].show(), "record": records[j].0, "limit": k, "panics": panics});
+                let seen = match h.join() {
+                    Ok(s) => s,
+                    Err(_) => {
+                        t.violation("", format!("{what}: the thread died"), case);
+                        continue;
+                    }
+                };
+                for (pi, route, got) in seen {
+                    let probe = &probes[pi];
+                    let got = match got {
+                        Ok(g) => g,
+                        Err(p) => {
+                            t.violation("", format!("{what}, {route} of {} on the same thread panicked: {p}", probe.show()), case.clone());
+                            continue;
+                        }
+                    };
+                    let rec = records.iter().find(|(name, _)| route == format!("print_with({name})")).map(|(_, o)| o.clone());
+                    let bad = match mode {
+                        Mode::C08 => rec.is_none() && got != rp::compact(probe),
+                        Mode::C13 => got != rec.as_ref().map(|o| rp::print(probe, o)).unwrap_or_else(|| rp::compact(probe)),
+                        Mode::C04 => !matches!(Value::parse_str(&got), Ok((back, _)) if back == bridge::to_value(probe)),
+                    };
+                    if bad {
+                        t.violation("", format!("{what}, {route} of {} on the same thread gives {got:?}", probe.show()), case.clone());
+                    }
+                }
+            }
+        }
+        t.nontrivial(&("print-history", i, j));
+        t.outcome("print history: probes unaffected by an earlier (failed, panicked or completed) print");
+    });
+    rep.bounds["print_history"] = json!({"first_values": firsts.len(), "records": records.len(), "destinations": ["fails after k bytes", "panics after k bytes", "accepts everything"], "k": "every k < 96, then every 7th", "probes": probes.len(), "routes_per_probe": 7, "fresh_thread_per_case": true});
+    rep.absorb(t);
+}
+
 fn no_whitespace_outside_strings(s: &str) -> bool {
     let mut in_str = false;
     let mut esc = false;
@@ -947,6 +1059,7 @@ fn c08_thread_exit(rep: &mut Report) {
 
 fn run_c08(rep: &mut Report, tier: Tier) {
     c08_thread_exit(rep);
+    print_history(rep, Mode::C08);
     // every Unicode scalar value as a one-character string, as key and value, and in an array
     let blocks: Vec<u32> = (0..0x110000u32 / 0x400).collect();
     let t = explore::par_tally(blocks, |b, t| {
